@@ -31,6 +31,9 @@ def plan(prop, tier):
         J.append(("collapse2", "pct", ["scenarios=%d" % (4 if q else 12), "runs=%d" % (60 if q else 300), "threads=3", "opsper=1"]))
         # directed: W stops just before it locks the survivor, D stops while it holds the collapsing interior, then W, P, D, P, W, P
         J.append(("collapse2", "pre2", ["scenarios=%d" % (3 if q else 10), "threads=3", "opsper=1"]))
+        # a border that has just been created by a split is emptied (and deleted) by another thread: every single preemption of the splitter
+        J.append(("splitdrain", "pre1", ["scenarios=%d" % (2 if q else 6), "threads=2", "opsper=1", "premax=%d" % (260 if q else 400)]))
+        J.append(("splitdrain", "pct", ["scenarios=%d" % (3 if q else 10), "runs=%d" % (20 if q else 60), "threads=3", "opsper=1"]))
         if prop == "C01":   # inline values: a slot word that holds the value itself
             for fam in ["border", "two", "layer"]:
                 J.append((fam, "random", ["scenarios=%d" % (15 if q else 80), "runs=%d" % (12 if q else 30), "threads=2", "opsper=2", "inl=1"]))
@@ -401,7 +404,7 @@ def run_steps4(chk, prop, tier, pk, progs=None):
         open(tr, "w").write(out)
         cfg = write_cfg(os.path.join(BUILD, "cfg", "tc4_%s_%d.cfg" % (pk, pi)), constants={"F": 15, "Keys": keys, "Threads": "{0, 1, 2}", "Prog": "<- ProgT",
                         "Init1": "{2}", "Init2": "{18}", "UNLOCK_BEFORE_PARENT": "FALSE", "NO_INS_ON_INSERT": "FALSE", "NO_INS_ON_DELETE": "FALSE",
-                        "SCAN_NO_FINAL": "FALSE", "SCAN_NO_ENTRY_CHECK": "FALSE", "SCAN_DUP": "FALSE", "ISCAN_NO_REWIND": "FALSE", "SCAN_FRESH_VERSION": "FALSE"},
+                        "SCAN_NO_FINAL": "FALSE", "SCAN_NO_ENTRY_CHECK": "FALSE", "SCAN_DUP": "FALSE", "ISCAN_NO_REWIND": "FALSE", "SCAN_FRESH_VERSION": "FALSE", "LATE_PARENT": "FALSE"},
                         invariants=["LinOK", "ScanOK", "NvOK", "RootOpsOK", "Quiescent"], constraint="Record")
         res = tlc("TraceConc4", cfg, env={"TRACE": tr}, workers=1, timeout=600, deque=True)
         chk.add_tlc(res, "step-level conformance of split under a parent / interior insert, shift-delete / collapse vs new root, programs %s, border %d full (%d runs, %d events)" % (prog, full, 2 * nruns, len(lines)))
